@@ -223,13 +223,32 @@ Theorem C05_model_table_accepts :
 Proof. exact model_table_accepts. Qed.
 Print Assumptions C05_model_table_accepts.
 
-(* NOT PROVED for the model (stated here in full, checked per generated grammar):
-   - C05_model_table_struct: plain_ok c -> create_table c = BOk b ->
-       table_struct (cfg_std c) (tb_table b) (start_nt c) = true
-     (the soundness half: only derivations; the invariant C05_automaton_structure carries the
-     predecessor-symbol property it needs, the kernel-provenance part is not done);
-   - the end-to-end theorem when priorities / associativity / prefer_shifts REMOVE actions
-     (then completeness is false by design: C06);
+(* ... and the other half: the model's table passes table_struct, i.e. (C05_only_derivations)
+   every accepting run of its LR machine, under any lookahead relation, builds a derivation
+   tree of the grammar whose leaves are the shifted tokens.  The invariant behind it: the
+   kernel items of the target of every X-edge come from items of the source state with X
+   after the dot, and only state 0 contains the item (0, 0). *)
+Theorem C05_model_table_struct :
+  forall (c : tconf) (b : tbuilt),
+    plain_ok c = true -> create_table c = BOk b ->
+    table_struct (cfg_std c) (tb_table b) (start_nt c) = true.
+Proof. exact model_table_struct. Qed.
+Print Assumptions C05_model_table_struct.
+
+Theorem C05_model_table_only_derivations :
+  forall (c : tconf) (b : tbuilt),
+    plain_ok c = true -> create_table c = BOk b ->
+    forall (look : N -> N -> N -> N -> Prop) pos d cf tr,
+      nsteps (cfg_std c) (tb_table b) look (init_cfg pos d) cf -> naccepts (tb_table b) look cf tr ->
+      wf_tree (cfg_std c) tr /\ root_sym (cfg_std c) tr = Some (NT (start_nt c)) /\
+      leaves tr = c_trace cf.
+Proof. exact model_table_only_derivations. Qed.
+Print Assumptions C05_model_table_only_derivations.
+
+(* NOT PROVED for the model (checked per generated grammar):
+   - the end-to-end theorems when priorities / associativity / prefer_shifts REMOVE actions
+     (then completeness is false by design: C06; table_struct would still hold);
+   - LALR precision (no reduction outside the LALR(1) lookahead);
    - termination of the state queue: false (next theorem). *)
 
 (* ---- (c) the LALR construction does not terminate on the known-finding grammar ------------ *)
@@ -281,6 +300,7 @@ Example C05_model_table_nonvacuous :
   match create_table (ex_conf true) with
   | BOk b => table_complete (cfg_std (ex_conf true)) (tb_table b) (ann_of_built (ex_conf true) b)
                             (fst_std (ex_conf true) (tb_first b)) (nul_std (ex_conf true) (tb_first b)) 2
+             && table_struct (cfg_std (ex_conf true)) (tb_table b) (start_nt (ex_conf true))
   | _ => false
   end = true.
 Proof. vm_compute. repeat split; reflexivity. Qed.
